@@ -135,13 +135,12 @@ def check_filter(prog: Program, res: Result) -> None:
             z = comp.generators[0].iter.args
             tg = comp.generators[0].target.elts if isinstance(comp.generators[0].target, ast.Tuple) else []
             # map each constructor position to the source array through the zip
-            src_of = {norm(t): norm(a) for t, a in zip(tg, z)}
+            # (each zipped sequence with named intermediates expanded; the array behind a masked selection A[mask])
+            def root(a_):
+                e_ = astq.expand(fi.node, a_)
+                return norm(e_.value) if isinstance(e_, ast.Subscript) else norm(e_)
+            src_of = {norm(t): root(a) for t, a in zip(tg, z)}
             pos = [src_of.get(norm(a), "?") for a in ec.args]
-            # resolve local names to the match arrays
-            def root(nm):
-                d = c17._single_def(fi, nm)
-                return norm(d.value) if isinstance(d, ast.Subscript) else nm
-            pos = [root(p) for p in pos]
             want = ["match_src_peak_inds_sample", "match_dst_peak_inds_sample", "match_line_scores_sample"]
             res.ob(R, pos == want and fields == ["src_peak_ind", "dst_peak_ind", "score"], fi.qualname, "EdgeConnection(src, dst, score) from the src/dst/score arrays",
                    f"EdgeConnection fields {fields} receive {pos}: source, destination and score are mixed up", f"{fi.module.relpath}:{ec.lineno}")
@@ -157,22 +156,45 @@ def check_minpeaks(prog: Program, res: Result) -> None:
     comps = [n for n in walk_function(fi.node) if isinstance(n, ast.DictComp) and n.generators and n.generators[0].ifs
              and "min_instance_peaks" in norm(n.generators[0].ifs[0])]
     res.ob(R, len(comps) == 1, fi.qualname, "one min_instance_peaks filter", f"{len(comps)} filters on min_instance_peaks", fi.where)
+    table = None
     for c in comps:
-        cond = c.generators[0].ifs[0]
-        ok = isinstance(cond, ast.Compare) and isinstance(cond.ops[0], (ast.GtE,)) and norm(cond.comparators[0]) == "min_instance_peaks" \
-            and norm(cond.left).startswith("instance_peak_counts[")
+        g = c.generators[0]
+        cond = g.ifs[0]
+        it = g.iter
+        table = norm(it.func.value) if isinstance(it, ast.Call) and isinstance(it.func, ast.Attribute) and it.func.attr == "items" and not it.args else None
+        tg = [norm(e) for e in g.target.elts] if isinstance(g.target, ast.Tuple) and len(g.target.elts) == 2 else [None, None]
+        # count[instance] >= minimum, count being the number of table entries per instance id
+        counter = cond.left.value.id if isinstance(cond, ast.Compare) and isinstance(cond.left, ast.Subscript) and isinstance(cond.left.value, ast.Name) else None
+        ok = isinstance(cond, ast.Compare) and len(cond.ops) == 1 and isinstance(cond.ops[0], (ast.GtE,)) and norm(cond.comparators[0]) == "min_instance_peaks" \
+            and counter is not None and norm(cond.left.slice) == tg[1]
         res.ob(R, ok, fi.qualname, f"keeps instances with count >= minimum: {short(cond, 60)}",
                f"the filter `{short(cond, 60)}` does not keep exactly the instances with at least min_instance_peaks peaks", f"{fi.module.relpath}:{c.lineno}")
-        res.ob(R, norm(c.generators[0].iter) == "instance_assignments.items()" and norm(c.key) == norm(c.generators[0].target.elts[0]) and norm(c.value) == norm(c.generators[0].target.elts[1]),
+        res.ob(R, table is not None and norm(c.key) == tg[0] and norm(c.value) == tg[1],
                fi.qualname, "filter keeps the (peak, instance) pairs unchanged", "the filter rewrites peak ids or instance ids", f"{fi.module.relpath}:{c.lineno}")
         st = c._parent
-        res.ob(R, isinstance(st, ast.Assign) and norm(st.targets[0]) == "instance_assignments", fi.qualname, "filtered table replaces instance_assignments",
+        res.ob(R, (isinstance(st, ast.Assign) and norm(st.targets[0]) == table) or isinstance(st, ast.Return), fi.qualname, "the filtered table is what is returned",
                "the filtered table is not what is returned", f"{fi.module.relpath}:{c.lineno}")
-    cnt = [n for n in walk_function(fi.node) if isinstance(n, ast.Call) and norm(n.func) == "np.unique" and any(k.arg == "return_counts" for k in n.keywords)]
-    res.ob(R, len(cnt) == 1 and "instance_assignments.values()" in norm(cnt[0]), fi.qualname, "peak counts are counts of instance ids in the table",
-           "per-instance peak counts are not computed from the assignment table", fi.where)
+        # the counter counts the instance ids of the table: Counter(T.values()) or np.unique(list(T.values()), return_counts=True)
+        seen, todo, counted = set(), [counter] if counter else [], False
+        while todo and len(seen) < 12:
+            nm = todo.pop()
+            if nm in seen:
+                continue
+            seen.add(nm)
+            for d in astq.assignments_to(fi.node, nm):
+                v = getattr(d, "value", None)
+                if v is None:
+                    continue
+                for k in ast.walk(v):
+                    if isinstance(k, ast.Call) and f"{table}.values()" in norm(k) and (
+                            norm(k.func).split(".")[-1] == "Counter" or (norm(k.func).split(".")[-1] == "unique" and any(kw.arg == "return_counts" and astq.const_value(kw.value) is True for kw in k.keywords))):
+                        counted = True
+                todo += [x for x in astq.names_in(v) if x not in seen and x != table]
+        res.ob(R, counted, fi.qualname, "peak counts are counts of instance ids in the table",
+               "per-instance peak counts are not computed from the assignment table", fi.where)
     rets = [n for n in walk_function(fi.node) if isinstance(n, ast.Return)]
-    res.ob(R, len(rets) == 1 and norm(rets[0].value) == "instance_assignments", fi.qualname, "returns the assignment table", "does not return the assignment table", fi.where)
+    res.ob(R, bool(rets) and table is not None and all(r.value is not None and (norm(r.value) == table or r.value in comps) for r in rets), fi.qualname,
+           "returns the assignment table", "does not return the assignment table", fi.where)
     # the threshold is the caller's COUNT unless it is a float fraction (decided by type, not by value: the count 1 is valid)
     re_defs = [st for st in walk_function(fi.node) if isinstance(st, ast.Assign) and norm(st.targets[0]) == "min_instance_peaks"]
     for st in re_defs:
